@@ -788,6 +788,58 @@ def cloneSub (w : World) (n : NId) (g : GId) : World × Res :=
       else ms) }
     (w1.setNode n { (w1.node n) with subgraphs := (w1.node n).subgraphs ++ [g'] }, .ok)
 
+/-! ### the inliner's instantiation of a function-body node
+
+`InlinePass._instantiate_call` (`passes/common/inliner.py` 232-262) builds a `Cloner` whose value map sends
+every formal parameter of the function to the actual argument of the call node - or to `None` when the
+argument is missing / `None` - and calls `clone_node` for every node of the body.  The value map is
+`Option`-valued here; `clone_node` is the same code as above (`_cloner.py`): inputs through the map
+(`None` stays `None`, a mapped-to-`None` formal becomes a missing input, an input without entry raises),
+outputs fresh, and the annotations through the node-local `io_map`, where an entry `None` *drops* the spec
+(`_remap_device_configurations`: "the value was dropped from the clone").  Only this step of the pass is
+modelled (body nodes without subgraphs); the rest of the pass re-wires uses (`replace_input_with`, i.e.
+`replaceInput` above) and removes the call node (`removeNode`). -/
+
+abbrev OMap := List (VId × Option VId)
+
+/-- `value in value_map` / `value_map[value]` for a map that may hold `None` -/
+def olookup (om : OMap) (v : VId) : Option (Option VId) := (om.find? (fun p => decide (p.1 = v))).map (·.2)
+
+/-- `_remap_device_configurations(device_configurations, value_map)`: no entry: the spec is kept; entry
+    `None`: the spec is dropped; entry `v'`: the spec is retargeted -/
+def remapDevO (om : OMap) (dev : List NodeCfg) : List NodeCfg :=
+  dev.map (fun nc => { nc with specs := nc.specs.filterMap (fun s =>
+    match olookup om s.value with
+    | none => some s
+    | some none => none
+    | some (some v') => some { s with value := v' }) })
+
+/-- the new inputs of `clone_node` (allow_outer_scope_values=False): `none` = raises -/
+def cloneInputsO (vm : OMap) : List (Option VId) → Option (List (Option VId))
+  | [] => some []
+  | none :: rest => (cloneInputsO vm rest).map (none :: ·)
+  | some v :: rest =>
+    match olookup vm v with
+    | none => none
+    | some t => (cloneInputsO vm rest).map (t :: ·)
+
+/-- `io_map` of `clone_node` with possibly-`None` new inputs -/
+def ioMapO (ins newIns : List (Option VId)) (outs newOuts : List VId) : OMap :=
+  ((outs.zip newOuts).map (fun p => (p.1, some p.2))).reverse ++
+  ((ins.zip newIns).filterMap (fun p => match p.1 with
+    | some a => some (a, p.2)
+    | none => none)).reverse
+
+/-- `Cloner(value_map=vm, ...).clone_node(nd)` for a body node without subgraphs; the new outputs are the
+    values `base, base+1, ...` -/
+def instNode (vm : OMap) (nd : NodeS) (base : Nat) : Option NodeS :=
+  match cloneInputsO vm nd.inputs with
+  | none => none
+  | some ins =>
+    let newOuts := List.range' base nd.outputs.length
+    some { inputs := ins, outputs := newOuts,
+           dev := remapDevO (ioMapO nd.inputs ins nd.outputs newOuts) nd.dev, subgraphs := [] }
+
 /-! ### serialization by name, deserialization by name -/
 
 structure PSpec where
